@@ -81,11 +81,85 @@ fn bin(table: String, c: u32, l: &str, r: &str, fl: Option<usize>, fr: Option<us
     run("C04.bin", &[table, c.to_string(), s(l), s(r), fmt_optvar(fl), fmt_optvar(fr), fmt_optvar(fo)], out);
 }
 
+/// value of variable k at truth-table index i over n variables (variable 0 = most significant bit)
+fn bit(i: usize, k: usize, n: usize) -> bool { (i >> (n - 1 - k)) & 1 == 1 }
+
+/// Operands with more than 65 536 nodes over 20 variables (task memo keys / pointers beyond 16 bits) and their
+/// partners. `dense`: pseudo-random function (about 107 000 nodes); `mux`: 16-way multiplexer with the data
+/// variables x0..x15 before the address variables x16..x19 (131 071 nodes); `small`: x18 & x19; `mid`: a
+/// pseudo-random function of 13 of the variables (about 1 000 nodes).
+struct Bigs { dense: String, mux: String, small: String, mid: String }
+
+fn make_bigs(rng: &mut Rng64) -> Bigs {
+    let n = 20usize;
+    let size = 1usize << n;
+    let dense = fmt_bdd(&bdd_of_tt(n, &(0..size).map(|_| rng.bool()).collect::<Vec<_>>()));
+    let mux = fmt_bdd(&bdd_of_tt(n, &(0..size).map(|i| ((i >> 4) >> (i & 15)) & 1 == 1).collect::<Vec<_>>()));
+    let small = fmt_bdd(&bdd_of_tt(n, &(0..size).map(|i| i & 3 == 3).collect::<Vec<_>>()));
+    // 13 variables spread over the order: every variable except 2, 5, 8, 11, 14, 17, 19
+    let keep: Vec<usize> = (0..n).filter(|k| !(k % 3 == 2 || *k == 19)).collect();
+    let inner: Vec<bool> = (0..(1usize << keep.len())).map(|_| rng.bool()).collect();
+    let mid = fmt_bdd(&bdd_of_tt(n, &(0..size).map(|i| {
+        let mut j = 0usize;
+        for k in &keep { j = (j << 1) | (bit(i, *k, n) as usize); }
+        inner[j]
+    }).collect::<Vec<_>>()));
+    Bigs { dense, mux, small, mid }
+}
+
+/// the `slot`-th big case; returns false when there is none left for this tier
+fn big_case(b: &Bigs, slot: usize, thorough: bool, rng: &mut Rng64, out: &mut Out) -> bool {
+    let f = |x: usize| Some(x);
+    let fixed = 8usize;
+    if slot < fixed {
+        match slot {
+            // the right operand is the big one (the memo key packs the right pointer into the low bits)
+            0 => bin(lazy_table2(8), 8, &b.small, &b.mux, None, f(17), f(18), out),
+            1 => bin(eager_table2(8), 8, &b.small, &b.dense, f(18), f(5), f(19), out),
+            2 => run("C04.ter", &[lazy_table3(0xCA), s("202"), b.dense.clone(), b.small.clone(), b.mid.clone(), fmt_optvar(f(3)), fmt_optvar(f(18)), s("-"), fmt_optvar(f(3))], out),
+            3 => bin(eager_table2(6), 6, &b.mux, &b.small, f(0), f(19), f(0), out),
+            4 => run("C04.ter", &[eager_table3(0xE8), s("232"), b.small.clone(), b.mux.clone(), b.mid.clone(), s("-"), fmt_optvar(f(16)), fmt_optvar(f(16)), fmt_optvar(f(19))], out),
+            5 => { let t = random_table2(rng, 11); bin(t, 11, &b.dense, &b.mid, f(7), f(7), f(7), out) },
+            6 => { let t = random_table3(rng, 0x96); run("C04.ter", &[t, s("150"), b.mid.clone(), b.small.clone(), b.dense.clone(), fmt_optvar(f(0)), s("-"), fmt_optvar(f(10)), s("-")], out) },
+            _ => { let t = random_table2(rng, 4); bin(t, 4, &b.mid, &b.dense, f(1), None, f(12), out) },
+        }
+        return true;
+    }
+    if !thorough || slot >= fixed + 28 { return false; }
+    // thorough: random tables and flips over the same shapes (right operand big twice as often)
+    let n = 20usize;
+    let fs = flips(n);
+    let pf = |rng: &mut Rng64| if rng.chance(1, 4) { None } else { *rng.pick(&fs) };
+    let big = if rng.bool() { &b.dense } else { &b.mux };
+    let other = if rng.bool() { &b.small } else { &b.mid };
+    match slot % 5 {
+        0 | 1 => { let c = *rng.pick(&CONNS); bin(some_table2(rng, c), c, other, big, pf(rng), pf(rng), pf(rng), out) },
+        2 => { let c = *rng.pick(&CONNS); bin(some_table2(rng, c), c, big, other, pf(rng), pf(rng), pf(rng), out) },
+        _ => {
+            let c3 = *rng.pick(&[0xCAu32, 0xE8, 0x96, 0x80, 0xFE, 0x1B]);
+            let pos = rng.below(3);
+            let ops: Vec<&String> = (0..3).map(|i| if i == pos { big } else if rng.bool() { &b.small } else { &b.mid }).collect();
+            run("C04.ter", &[some_table3(rng, c3), c3.to_string(), ops[0].clone(), ops[1].clone(), ops[2].clone(),
+                fmt_optvar(pf(rng)), fmt_optvar(pf(rng)), fmt_optvar(pf(rng)), fmt_optvar(pf(rng))], out);
+        }
+    }
+    true
+}
+
 /// connectives used for the "several tables" sweeps: and, or, xor, imp, and_not, nand, a projection
 const CONNS: [u32; 7] = [8, 14, 6, 11, 4, 7, 12];
 
 pub fn gen(tier: Tier, rng: &mut Rng64, out: &mut Out) {
     let thorough = tier == Tier::Thorough;
+    // --- operands with more than 65 536 nodes: 8 fixed cases (quick and thorough) + 28 random ones (thorough),
+    //     emitted between the other sections (the runner shards the case file into contiguous chunks)
+    let bigs = make_bigs(rng);
+    let mut slot = 0usize;
+    let mut emit_big = |rng: &mut Rng64, out: &mut Out| {
+        let per_call = if thorough { 6 } else { 2 };
+        for _ in 0..per_call { if big_case(&bigs, slot, thorough, rng, out) { slot += 1; } }
+    };
+    emit_big(rng, out);
     // --- n <= 2: all pairs x all flip choices (incl. one out-of-range value) x one random consistent table
     for n in 0..=2usize {
         let count = 1u64 << (1u64 << n);
@@ -102,6 +176,7 @@ pub fn gen(tier: Tier, rng: &mut Rng64, out: &mut Out) {
             } } }
         } }
     }
+    emit_big(rng, out);
     // --- n = 3: pairs (sampled in quick, all in thorough) x tables x all 4^3 flip choices
     let all3: Vec<String> = (0..256u64).map(|t| fmt_bdd(&bdd_of_tt(3, &tt_from_index(3, t)))).collect();
     let fs3 = flips(3);
@@ -127,6 +202,7 @@ pub fn gen(tier: Tier, rng: &mut Rng64, out: &mut Out) {
             } } }
         }
     }
+    emit_big(rng, out);
     // --- flips on variables that neither operand mentions: operands over n = 4 depending on x1, x2 only
     let rounds = if thorough { 4000 } else { 150 };
     for _ in 0..rounds {
@@ -142,6 +218,7 @@ pub fn gen(tier: Tier, rng: &mut Rng64, out: &mut Out) {
         bin(some_table2(rng, c), c, &l, &r, *rng.pick(&unused), *rng.pick(&unused), *rng.pick(&unused), out);
         bin(some_table2(rng, c), c, &l, &r, *rng.pick(&flips(n)), *rng.pick(&unused), *rng.pick(&flips(n)), out);
     }
+    emit_big(rng, out);
     // --- random operands over 4..6 variables (shared sub-diagrams, skipped levels, non-canonical operands)
     let rounds = if thorough { 60000 } else { 2500 };
     for _ in 0..rounds {
@@ -162,6 +239,7 @@ pub fn gen(tier: Tier, rng: &mut Rng64, out: &mut Out) {
             bin(some_table2(rng, c), c, &ls, &rs, x, x, x, out);
         }
     }
+    emit_big(rng, out);
     // --- panics: out-of-range flips (any position) and operands with different variable counts
     let rounds = if thorough { 3000 } else { 200 };
     for _ in 0..rounds {
@@ -182,6 +260,7 @@ pub fn gen(tier: Tier, rng: &mut Rng64, out: &mut Out) {
             bin(some_table2(rng, c), c, &other, &rs, *rng.pick(&fs), None, None, out);
         }
     }
+    emit_big(rng, out);
     // --- ternary: small universes with sampled flip choices (4^4), random operands over 4..5 variables
     let rounds = if thorough { 120000 } else { 5000 };
     for i in 0..rounds {
